@@ -275,6 +275,9 @@ func main() {
 			add(s, caseJ{Site: s.name, Variant: s.variant, Mode: "stress", N: n, Seed: rng.U64()})
 		}
 	}
+	if o.Thorough() {
+		run.Extra["race_detector"] = raceRun(o.Seed, o.OutDir)
+	}
 	run.Extra["driver_wall_s"] = time.Since(t0).Seconds()
 	run.Extra["yield_hits"] = ctl.hits
 	run.Finish("c11case",
